@@ -346,16 +346,30 @@ def fam_phases(E, repeats=2):
     w = E.int('w', 0, 3)
     val = E.int('val', 0, 3)
 
-    def run_once(waitqueue, note, gc_mode=None):
+    def run_once(waitqueue, note, gc_mode=None, pad=0):
         log = Log(note=note)
         one, two = E.const(Fraction(1)), E.const(Fraction(2))
         tr = Tracked(E.const(0))
+        other = Tracked(E.const(0))
         pipe = Pipe(throughput=two)
 
         async def waiter(name, x):
             try:
                 await (tr >= x)
                 log(name, 'woke')
+            finally:
+                log(name, 'left')
+
+        async def twice(name):
+            # two comparisons in a row: the first one holds already and is dead once the wait is
+            # over; `pad` unrelated objects of the same kind are allocated before the second one
+            # is made (whether it re-uses the address of the dead one must not matter)
+            try:
+                await (tr >= E.const(0))
+                keep = [(other >= E.const(1)) for _ in range(pad)]
+                await (tr >= x2)
+                log(name, 'woke')
+                del keep
             finally:
                 log(name, 'left')
 
@@ -383,6 +397,7 @@ def fam_phases(E, repeats=2):
             log('r', 'phase2')
             # phase 2: fresh waiters on comparisons that may equal the old ones
             async with Scope() as s:
+                s.do(twice('X'))
                 s.do(waiter('A', x1))
                 s.do(waiter('B', x2))
                 s.do(waiter('C', x3))
@@ -421,7 +436,7 @@ def fam_phases(E, repeats=2):
         for r in range(repeats):
             tr_, _ = run_once(HQWaitQueue, False, gc_mode='eager')
             same_trace(E, t1, tr_, 'same-trace-when-garbage-is-collected-at-every-step')
-            tr_, _ = run_once(HQWaitQueue, False, gc_mode='lazy')
+            tr_, _ = run_once(HQWaitQueue, False, gc_mode='lazy', pad=r + 1)
             same_trace(E, t1, tr_, 'same-trace-when-repeated-with-other-memory-layout')
 
 
